@@ -741,7 +741,8 @@ func zzC01eEndToEnd() {
 		var dps []*message.DataPoint
 		for i := 0; i < n; i++ {
 			v := vf.U8(label + string(rune('0'+i)))
-			dps = append(dps, &message.DataPoint{ElapsedTime: time.Duration(len(all) + 1), Payload: []byte{v}})
+			// (elapsed times are the application's business: late and repeated samples, not increasing)
+			dps = append(dps, &message.DataPoint{ElapsedTime: time.Duration((7 * (len(all) + 1)) % 5), Payload: []byte{v}})
 			all = append(all, written{id.Name, v})
 		}
 		vf.Assert("write-accepted", up.WriteDataPoints(ctx, id, dps...) == nil)
@@ -3435,3 +3436,245 @@ func zzC04kConcurrentReaders() {
 }
 func zzC04kConcurrentReadersDev1() { zzDeviations = 1; zzC04kConcurrentReaders() }
 func zzC04kConcurrentReadersDev2() { zzDeviations = 2; zzC04kConcurrentReaders() }
+
+// zzSlowLogger makes the connection's dispatcher lag behind the transport reader: every warning
+// (the dispatcher warns about a reply nobody waits for) takes a millisecond.
+type zzSlowLogger struct{}
+
+func (zzSlowLogger) Infof(context.Context, string, ...any)  {}
+func (zzSlowLogger) Warnf(context.Context, string, ...any)  { time.Sleep(time.Millisecond) }
+func (zzSlowLogger) Errorf(context.Context, string, ...any) {}
+func (zzSlowLogger) Debugf(context.Context, string, ...any) {}
+
+// C16.i: a burst of reply calls nobody waits for (or of incoming calls), longer than the wire
+// connection's 8-slot dispatch queue, arrives while the connection's dispatcher lags behind the
+// transport reader (a slow logger) and before the application receives any: ReceiveReplyCall /
+// ReceiveCall hand out every one of them once, unmodified, in arrival order.
+func zzC16iBurstKeepsArrivalOrder() {
+	b := zzNewBroker()
+	conf := b.config()
+	conf.Logger = zzSlowLogger{}
+	k := 0
+	randomString = func() string { k++; return "call-" + string(rune('a'+k)) }
+	conn, cerr := ConnectWithConfig(conf)
+	vf.Assume(cerr == nil)
+	vf.Settle()
+	vf.Deviations(zzDeviations)
+	tr := b.last()
+	ctx := context.Background()
+	replies := vf.Choose("reply.calls", 2) == 1
+	n := 10 + 2*vf.Choose("burst.beyond.ten", 3)
+	for i := 0; i < n; i++ {
+		c := &message.DownstreamCall{CallID: "c" + string(rune('a'+i)), SourceNodeID: "n", Name: "a", Type: "b", Payload: []byte{byte(i)}}
+		if replies {
+			c.RequestCallID = "nobody"
+		}
+		tr.push(c)
+	}
+	vf.Settle()
+	vf.Advance(time.Second)
+	vf.Settle()
+	inOrder, unmodified := true, true
+	for i := 0; i < n; i++ {
+		var id string
+		var payload []byte
+		var err error
+		blocked := vf.Blocked(func() {
+			if replies {
+				var r *DownstreamReplyCall
+				r, err = conn.ReceiveReplyCall(ctx)
+				if r != nil {
+					id, payload = r.CallID, r.Payload
+				}
+			} else {
+				var r *DownstreamCall
+				r, err = conn.ReceiveCall(ctx)
+				if r != nil {
+					id, payload = r.CallID, r.Payload
+				}
+			}
+		})
+		vf.Assert("every-call-of-the-burst-is-handed-out", !blocked && err == nil)
+		if blocked || err != nil {
+			return
+		}
+		if id != "c"+string(rune('a'+i)) {
+			inOrder = false
+		}
+		if len(payload) != 1 || payload[0] != byte(i) {
+			unmodified = false
+		}
+	}
+	vf.Assert("in-arrival-order", inOrder)
+	vf.Assert("unmodified", unmodified || !inOrder)
+	conn.Close(ctx)
+	vf.Reach("end")
+}
+func zzC16iBurstKeepsArrivalOrderDev1() { zzDeviations = 1; zzC16iBurstKeepsArrivalOrder() }
+
+// zzSlowStoreW is a sent storage whose Store takes a while.
+type zzSlowStoreW struct {
+	sentStorage
+	delay time.Duration
+	slow  bool
+}
+
+func (s *zzSlowStoreW) Store(ctx context.Context, id uuid.UUID, seq uint32, dpgs DataPointGroups) error {
+	if s.slow {
+		time.Sleep(s.delay)
+	}
+	return s.sentStorage.Store(ctx, id, seq, dpgs)
+}
+
+// C08.j: a Flush whose context ends while the flush loop is busy with that very request (a slow sent
+// storage): the caller gets its context error, and the stream is not wedged by the abandoned
+// hand-over - a later Flush succeeds, a later write is accepted, and Close returns.
+func zzC08jFlushAbandonedMidRequest() {
+	b := zzNewBroker()
+	zzServeStreams(b)
+	store := &zzSlowStoreW{sentStorage: newInmemSentStorage(), delay: time.Second}
+	conf := b.config()
+	conf.sentStorage = store
+	n := 0
+	randomString = func() string { n++; return "call-" + string(rune('a'+n)) }
+	conn, err := ConnectWithConfig(conf)
+	vf.Assume(err == nil)
+	vf.Settle()
+	vf.Deviations(zzDeviations)
+	ctx := context.Background()
+	up, err := conn.OpenUpstream(ctx, "session", WithUpstreamFlushPolicyNone(), WithUpstreamQoS(message.QoSUnreliable), WithUpstreamCloseTimeout(time.Second))
+	vf.Assume(err == nil)
+	vf.Settle()
+	id := &message.DataID{Name: "n", Type: "t"}
+	vf.Assert("write-1", up.WriteDataPoints(ctx, id, &message.DataPoint{ElapsedTime: 1, Payload: []byte{1}}) == nil)
+	vf.Settle()
+	store.slow = true
+	fctx, fcancel := context.WithTimeout(ctx, 500*time.Millisecond)
+	var ferr error
+	fdone := false
+	go func() { ferr = up.Flush(fctx); fdone = true }()
+	vf.Settle()
+	vf.Advance(500 * time.Millisecond) // the caller's deadline: it gives up
+	vf.Settle()
+	vf.Assert("abandoned-flush-returns-its-context-error", fdone && ferr != nil)
+	fcancel()
+	vf.Advance(600 * time.Millisecond) // the storage is done; the result has nobody to go to
+	vf.Settle()
+	store.slow = false
+	wctx, wcancel := context.WithTimeout(ctx, time.Second)
+	var werr error
+	wblocked := vf.Blocked(func() { werr = up.WriteDataPoints(wctx, id, &message.DataPoint{ElapsedTime: 2, Payload: []byte{2}}) })
+	vf.Assert("later-write-accepted", !wblocked && werr == nil)
+	wcancel()
+	var f2 error
+	f2blocked := vf.Blocked(func() { f2 = up.Flush(ctx) })
+	vf.Assert("later-flush-succeeds", !f2blocked && f2 == nil)
+	vf.Settle()
+	pts := 0
+	for _, c := range zzUpstreamChunksOf(b.last()) {
+		for _, g := range c.StreamChunk.DataPointGroups {
+			pts += len(g.DataPoints)
+		}
+	}
+	vf.Assert("both-points-travel-once", pts == 2)
+	closed := false
+	go func() { up.Close(ctx); closed = true }()
+	vf.Settle()
+	for i := 0; i < 3 && !closed; i++ {
+		vf.Advance(time.Second)
+		vf.Settle()
+	}
+	vf.Assert("close-returns", closed)
+	conn.Close(ctx)
+	vf.Reach("end")
+}
+func zzC08jFlushAbandonedMidRequestDev1() { zzDeviations = 1; zzC08jFlushAbandonedMidRequest() }
+
+// C07.g: two upstreams survive an outage and the broker hands the aliases out differently when they
+// resume (swapped, or two fresh ones): afterwards each stream sends under the alias it was given at
+// the resume, an ack addressed to an alias reaches the stream that now owns it - only that one -
+// and each stream's unacknowledged data stays in its own store.
+func zzC07gAliasesAfterResume() {
+	b := zzNewBroker()
+	zzServeStreams(b)
+	serve := b.handler
+	opened := 0
+	swapped := vf.Choose("aliases.after.resume", 2) == 0 // 0: swapped (10 <-> 20), 1: fresh (30, 40)
+	b.handler = func(t *zzTr, m message.Message) bool {
+		switch r := m.(type) {
+		case *message.UpstreamOpenRequest:
+			opened++
+			id := zzStreamID1
+			if opened == 2 {
+				id = zzStreamID2
+			}
+			t.in <- zzEncode(&message.UpstreamOpenResponse{RequestID: r.RequestID, AssignedStreamID: id, AssignedStreamIDAlias: uint32(10 * opened), ResultCode: message.ResultCodeSucceeded})
+			return true
+		case *message.UpstreamResumeRequest:
+			a := uint32(30)
+			if r.StreamID == zzStreamID2 {
+				a = 40
+			}
+			if swapped {
+				a = 20
+				if r.StreamID == zzStreamID2 {
+					a = 10
+				}
+			}
+			t.in <- zzEncode(&message.UpstreamResumeResponse{RequestID: r.RequestID, AssignedStreamIDAlias: a, ResultCode: message.ResultCodeSucceeded})
+			return true
+		}
+		return serve(t, m)
+	}
+	conn := zzConnect(b)
+	tr1 := b.last()
+	ctx := context.Background()
+	log1, log2 := &zzAckLog{}, &zzAckLog{}
+	up1, err := conn.OpenUpstream(ctx, "s1", WithUpstreamFlushPolicyNone(), WithUpstreamQoS(message.QoSReliable), WithUpstreamReceiveAckHooker(log1), WithUpstreamCloseTimeout(time.Second))
+	vf.Assume(err == nil)
+	up2, err := conn.OpenUpstream(ctx, "s2", WithUpstreamFlushPolicyNone(), WithUpstreamQoS(message.QoSReliable), WithUpstreamReceiveAckHooker(log2), WithUpstreamCloseTimeout(time.Second))
+	vf.Assume(err == nil)
+	vf.Settle()
+	vf.Assume(up1.ID == zzStreamID1 && up2.ID == zzStreamID2)
+	tr1.Close()
+	vf.Settle()
+	for i := 0; i < 4; i++ { // keepalive notices; redial; both resume
+		vf.Advance(11 * time.Second)
+		vf.Settle()
+	}
+	tr := b.last()
+	vf.Assert("recovered", b.dials == 2 && tr != tr1 && conn.state.Is(connStatusConnected))
+	a1, a2 := uint32(30), uint32(40)
+	if swapped {
+		a1, a2 = 20, 10
+	}
+	p1, p2 := vf.U8("payload1"), vf.U8("payload2")
+	id := &message.DataID{Name: "n", Type: "t"}
+	vf.Assert("both-streams-write-after-the-resume", up1.WriteDataPoints(ctx, id, &message.DataPoint{ElapsedTime: 1, Payload: []byte{p1}}) == nil && up1.Flush(ctx) == nil &&
+		up2.WriteDataPoints(ctx, id, &message.DataPoint{ElapsedTime: 1, Payload: []byte{p2}}) == nil && up2.Flush(ctx) == nil)
+	vf.Settle()
+	byAlias := func(a uint32) []*message.UpstreamChunk {
+		var out []*message.UpstreamChunk
+		for _, c := range zzUpstreamChunksOf(tr) {
+			if c.StreamIDAlias == a {
+				out = append(out, c)
+			}
+		}
+		return out
+	}
+	vf.Assert("each-stream-sends-under-the-alias-of-its-resume", len(zzUpstreamChunksOf(tr)) == 2 && len(byAlias(a1)) == 1 && len(byAlias(a2)) == 1 &&
+		byAlias(a1)[0].StreamChunk.DataPointGroups[0].DataPoints[0].Payload[0] == p1 && byAlias(a2)[0].StreamChunk.DataPointGroups[0].DataPoints[0].Payload[0] == p2)
+	// the broker acknowledges stream 1's chunk (under stream 1's new alias) only
+	tr.push(&message.UpstreamChunkAck{StreamIDAlias: a1, Results: []*message.UpstreamChunkResult{{SequenceNumber: 1, ResultCode: message.ResultCodeSucceeded, ResultString: "one"}}})
+	vf.Settle()
+	vf.Assert("ack-reaches-the-stream-that-owns-the-alias-now", len(log1.got) == 1 && log1.got[0].ResultString == "one" && len(log2.got) == 0)
+	st1, _ := conn.sentStorage.List(ctx, up1.ID)
+	st2, _ := conn.sentStorage.List(ctx, up2.ID)
+	vf.Assert("stores-follow-the-acks", len(st1) == 0 && len(st2) == 1)
+	tr.push(&message.UpstreamChunkAck{StreamIDAlias: a2, Results: []*message.UpstreamChunkResult{{SequenceNumber: 1, ResultCode: message.ResultCodeSucceeded, ResultString: "two"}}})
+	vf.Settle()
+	vf.Assert("second-ack-reaches-stream2-once", len(log2.got) == 1 && log2.got[0].ResultString == "two" && len(log1.got) == 1)
+	conn.Close(ctx)
+	vf.Reach("end")
+}
+func zzC07gAliasesAfterResumeDev1() { zzDeviations = 1; zzC07gAliasesAfterResume() }
